@@ -174,7 +174,7 @@ def _ascii_twin(W, st, prefs):
                 fh.write(_to_ascii(text))
         if not any_non_ascii:
             return None
-        T = Project(d, ropefolder=None, **{k: v for k, v in prefs.items() if k in ("automatic_soa", "ignore_syntax_errors")})
+        T = Project(d, ropefolder=None, **{k: v for k, v in prefs.items() if k in ("automatic_soa", "ignore_syntax_errors", "pull_imports_to_top")})
         try:
             ch = compute_refactoring(T, st)
             if ch is None or not ch.changes:
@@ -388,6 +388,8 @@ class ByteStoreEngine(Engine):
         files = [e["p"] for e in init if not e.get("dir")]
         texts = {e["p"]: e["text"] for e in init if not e.get("dir")}
         steps = []
+        if swarm["program"] and rng.random() < 0.2:
+            swarm["imports_in_place"] = True  # (the pull_imports_to_top preference switched off)
         if swarm["program"] and rng.random() < 0.15:
             # the project tolerates modules it cannot parse (analysed as if empty): one module is
             # left half-typed; requests on it or passing over it must not damage it
@@ -528,6 +530,8 @@ class ByteStoreEngine(Engine):
         prefs = {"automatic_soa": bool(swarm.get("soa", True)), "save_history": True, "save_objectdb": False}
         if swarm.get("ignore_syntax_errors"):
             prefs["ignore_syntax_errors"] = True
+        if swarm.get("imports_in_place"):
+            prefs["pull_imports_to_top"] = False
         W = World(trace["init"], limit=100, ropefolder=ROPEFOLDER, prefs=prefs, tag="c16-", stamp=True)
         try:
             model = HistoryModel(TreeModel(W.snapshot()), 100)
